@@ -170,7 +170,7 @@ def c_xyz(R, mods, tus):
     return xyz
 
 
-def c_from_xyz(R, tus, fname, with_t):
+def c_from_xyz(R, tus, fname, with_t, all_paths=False):
     f = cfront.find_func(tus, fname, CD)
     qn = [p.name for p in f.params]
     xyz = xyz_atoms()
@@ -179,11 +179,48 @@ def c_from_xyz(R, tus, fname, with_t):
            qn[4]: sym("wedge"), qn[5]: sym("chi"), qn[6]: lambda idx: t[idx[0]]}
     sg = vn_c.CSym(f, tus, symbolic_loops={"i": "i"}, inputs=inp)
     pg = sg.run()
+    if len(pg) < 1 or len(pg) > 8:
+        R.fail("%s: expected a handful of paths, got %d" % (fname, len(pg)))
+    if all_paths:
+        out = []
+        for st in pg:
+            d = [st.arr.get("d", {}).get((j,)) for j in range(3)]
+            out.append((path_equalities(st), st.out[qn[7]], d, [c[4] + ("" if c[3] else " is false") for c in st.conds]))
+        return f, out
     if len(pg) != 1:
         R.fail("%s: expected one path, got %d" % (fname, len(pg)))
     st = pg[0]
     d = [st.arr.get("d", {}).get((j,)) for j in range(3)]
     return f, st.out[qn[7]], d
+
+
+def path_equalities(st):
+    """equalities  <input atom> == <constant>  that hold on a path (from branch conditions a != c false / a == c true, through
+    false disjunctions and true conjunctions) -> substitution for the reference expressions"""
+    eqs = {}
+
+    def walk(c, pol):
+        op = c[0]
+        if op == "or" and not pol:
+            walk(c[1], False)
+            walk(c[2], False)
+        elif op == "and" and pol:
+            walk(c[1], True)
+            walk(c[2], True)
+        elif op == "not":
+            walk(c[1], not pol)
+        elif (op == "!=" and not pol) or (op == "==" and pol):
+            a, b = c[1], c[2]
+            for x, y in ((a, b), (b, a)):
+                if y.is_const():
+                    r = vn.normalise(x)
+                    if r.d.is_const() and r.d.const_value() == 1 and len(r.n.t) == 1:
+                        (mono, coef), = r.n.t.items()
+                        if coef == 1 and len(mono) == 1 and mono[0][1] == 1 and isinstance(mono[0][0], str):
+                            eqs[mono[0][0]] = y
+    for rec in st.conds:
+        walk(rec[:3], rec[3])
+    return eqs
 
 
 def d_is_the_only_link(f):
@@ -199,75 +236,91 @@ def d_is_the_only_link(f):
     banned = {pn[0], pn[6], "u", "o"}
     bad = []
     for s in body.body:
-        exprs = [x for e in cfront.stmt_exprs(s) for x in cfront.ewalk(e)]
+        # a top-level statement with everything nested in it (an if / else that forms d on both branches counts as one)
+        tops = [e for st in cfront.swalk(s) for e in cfront.stmt_exprs(st)]
+        exprs = [x for e in tops for x in cfront.ewalk(e)]
         if seen_d:
             for x in exprs:
                 if x.k == "var" and x.name in banned:
                     bad.append((x.name, x.line))
-        for e in cfront.stmt_exprs(s):
-            if e.k == "asg" and cfront.estr(e.a[0]).startswith("d["):
-                assigned.add(cfront.estr(e.a[0]))
+        for x in exprs:
+            if x.k == "asg" and cfront.estr(x.a[0]).startswith("d["):
+                assigned.add(cfront.estr(x.a[0]))
         if len(assigned) >= 3:
             seen_d = True
     return bad if seen_d else None
 
 
-def r24(R, mods):
-    R.rule("C01.R2", "compute_geometry's g-vector columns equal compute_gv's output (for a generic peak, translation, wedge, chi, sign)")
-    R.rule("C01.R4", "fast route == Python reference, stage by stage and for every parameter: (i) Ctransform packing + compute_xlylzl == "
+def r24(R, mods, r2n="C01.R2", r4n="C01.R4"):
+    R.rule(r2n, "compute_geometry's g-vector columns equal compute_gv's output (for a generic peak, translation, wedge, chi, sign)")
+    R.rule(r4n, "fast route == Python reference, stage by stage and for every parameter: (i) Ctransform packing + compute_xlylzl == "
                      "compute_xyz_lab; (ii) d = xyz - origin(t, omega*sign, wedge, chi) == xyz - compute_grain_origins; (iii-v) tth, eta, "
                      "gx,gy,gz, ds^2 as functions of d (atan2 / half-angle rewriting); outputs depend on (xyz, t) only through d")
     tus = cfront.load(R.root, files=["cdiffraction.c"])
-    # ---- R2 (with translation)
-    fgeo, geo_t, d_geo = c_from_xyz(R, tus, "compute_geometry", True)
-    fgv, gv_t, d_gv = c_from_xyz(R, tus, "compute_gv", True)
-    for j in range(3):
-        a, b = geo_t.get(("i", 3 + j)), gv_t.get(("i", j))
-        R.check(a is not None and b is not None and vn.equal(a, b), "C01.R2", CD, fgeo.line, "compute_geometry", "out[i][%d] == compute_gv gv[i][%d]" % (3 + j, j),
-                "the two C kernels compute different g-vectors from the same inputs")
+    # ---- R2 (with translation); a kernel may special-case translations (paths): each path is compared under its own condition
+    fgeo, geo_paths = c_from_xyz(R, tus, "compute_geometry", True, all_paths=True)
+    fgv, gv_paths = c_from_xyz(R, tus, "compute_gv", True, all_paths=True)
+    for eq1, geo_t, d_geo, why1 in geo_paths:
+        for eq2, gv_t, d_gv, why2 in gv_paths:
+            if any(k in eq2 and not vn.equal(eq1[k], eq2[k]) for k in eq1):
+                continue
+            eq = dict(eq1)
+            eq.update(eq2)
+            for j in range(3):
+                a, b = geo_t.get(("i", 3 + j)), gv_t.get(("i", j))
+                ok = a is not None and b is not None and vn.equal(vn.subst_deep(a, eq) if eq else a, vn.subst_deep(b, eq) if eq else b)
+                R.check(ok, r2n, CD, fgeo.line, "compute_geometry", "out[i][%d] == compute_gv gv[i][%d]%s" % (
+                    3 + j, j, (" on the path %s" % (why1 + why2)) if (why1 or why2) else ""),
+                        "the two C kernels compute different g-vectors from the same inputs%s" % (
+                            (" when " + " and ".join("%s == %s" % (k, vn_py._short(v)) for k, v in sorted(eq.items()))) if eq else ""))
     # ---- (i)
     names = ("xl", "yl", "zl")
     pyx = python_xyz(mods)
     cx = c_xyz(R, mods, tus)
     for j in range(3):
         ok = vn.equal(cx[j], vn_py.R(pyx[j]))
-        R.check(ok, "C01.R4", TR, mods["transform"].func("Ctransform.reset").lineno, "Ctransform.reset + compute_xlylzl", "(i) %s(fast) == compute_xyz_lab[%d]" % (names[j], j),
+        R.check(ok, r4n, TR, mods["transform"].func("Ctransform.reset").lineno, "Ctransform.reset + compute_xlylzl", "(i) %s(fast) == compute_xyz_lab[%d]" % (names[j], j),
                 "the packed detector matrix / centre / distance handed to C does not reproduce transform.compute_xyz_lab: %s differs (e.g. an "
                 "off-diagonal flip or a tilt enters differently)" % names[j])
     # ---- (ii)
     pyd = python_from_xyz(mods, True)["d"]
-    for f, d in ((fgeo, d_geo), (fgv, d_gv)):
-        R.shape(all(x is not None for x in d), "C01.R4", CD, f.name, "the difference vector d[3]")
-        for j in range(3):
-            R.check(vn.equal(d[j], vn_py.R(pyd[j])), "C01.R4", CD, f.line, f.name, "(ii) d[%d] == xyz[%d] - compute_grain_origins(omega*sign, wedge, chi, t)[%d]" % (j, j, j),
-                    "the grain-origin shift (translation rotated by omega*sign, chi, wedge) differs from transform.compute_grain_origins in "
-                    "component %d - shows only for a non-zero translation together with the rotations" % j)
+    for f, paths in ((fgeo, geo_paths), (fgv, gv_paths)):
+        for eq, outp, d, why in paths:
+            R.shape(all(x is not None for x in d), r4n, CD, f.name, "the difference vector d[3]")
+            for j in range(3):
+                ref = vn_py.R(pyd[j])
+                ok = vn.equal(vn.subst_deep(d[j], eq) if eq else d[j], vn.subst_deep(ref, eq) if eq else ref)
+                R.check(ok, r4n, CD, f.line, f.name, "(ii) d[%d] == xyz[%d] - compute_grain_origins(omega*sign, wedge, chi, t)[%d]%s" % (
+                    j, j, j, (" on the path %s" % why) if why else ""),
+                        "the grain-origin shift (translation rotated by omega*sign, chi, wedge) differs from transform.compute_grain_origins in "
+                        "component %d%s - shows only for a non-zero translation together with the rotations" % (
+                            j, (" when " + " and ".join("%s == %s" % (k, vn_py._short(v)) for k, v in sorted(eq.items()))) if eq else ""))
         bad = d_is_the_only_link(f)
-        R.shape(bad is not None, "C01.R4", CD, f.name, "the per-peak loop body with the d[] assignments")
-        R.check(not bad, "C01.R4", CD, f.line, f.name, "outputs depend on position/translation only through d", "%s is read again after d was formed: %s" % (
+        R.shape(bad is not None, r4n, CD, f.name, "the per-peak loop body with the d[] assignments")
+        R.check(not bad, r4n, CD, f.line, f.name, "outputs depend on position/translation only through d", "%s is read again after d was formed: %s" % (
             bad[0][0] if bad else "", bad[:2]))
     # ---- (iii)-(v) : as functions of d (translation zero => d == xyz atoms)
     fgeo0, geo, d0 = c_from_xyz(R, tus, "compute_geometry", False)
     for j, a in enumerate(xyz_atoms()):
         if not vn.equal(d0[j], a):
-            R.fail("C01.R4: with zero translation d[%d] is not the lab coordinate" % j)
+            R.fail("C01.R4/C02.R6: with zero translation d[%d] is not the lab coordinate" % j)
     py = python_from_xyz(mods, False)
-    R.check(vn.equal(geo.get(("i", 0)), vn_py.R(py["tth"])), "C01.R4", CD, fgeo.line, "compute_geometry", "(iv) tth(fast) == compute_tth_eta_from_xyz tth",
+    R.check(vn.equal(geo.get(("i", 0)), vn_py.R(py["tth"])), r4n, CD, fgeo.line, "compute_geometry", "(iv) tth(fast) == compute_tth_eta_from_xyz tth",
             "two-theta differs between the C kernel and the Python reference")
-    R.check(vn.equal(geo.get(("i", 1)), vn_py.R(py["eta"])), "C01.R4", CD, fgeo.line, "compute_geometry", "(iv) eta(fast) == compute_tth_eta_from_xyz eta",
+    R.check(vn.equal(geo.get(("i", 1)), vn_py.R(py["eta"])), r4n, CD, fgeo.line, "compute_geometry", "(iv) eta(fast) == compute_tth_eta_from_xyz eta",
             "eta differs between the C kernel and the Python reference")
     pyg = [vn.expand_trig_of_atan2(vn_py.R(x)) for x in py["g"]]
     for j, nm in enumerate(("gx", "gy", "gz")):
         ok = vn.equal(pyg[j], geo.get(("i", 3 + j)))
-        R.check(ok, "C01.R4", CD, fgeo.line, "compute_geometry", "(iii,v) %s(fast) == compute_g_vectors[%d] (atan2/half-angle rewriting)" % (nm, j),
+        R.check(ok, r4n, CD, fgeo.line, "compute_geometry", "(iii,v) %s(fast) == compute_g_vectors[%d] (atan2/half-angle rewriting)" % (nm, j),
                 "the g-vector component %s of the fast route differs from the documented Python formulas for some parameter combination" % nm)
     ds = geo.get(("i", 2))
     gg = pyg[0] * pyg[0] + pyg[1] * pyg[1] + pyg[2] * pyg[2]
-    R.check(vn.equal(ds * ds, gg), "C01.R4", CD, fgeo.line, "compute_geometry", "ds(fast)^2 == gx^2+gy^2+gz^2 of the Python route", "d-star differs")
+    R.check(vn.equal(ds * ds, gg), r4n, CD, fgeo.line, "compute_geometry", "ds(fast)^2 == gx^2+gy^2+gz^2 of the Python route", "d-star differs")
     # plumbing of the stages on the Python side
     tf = mods["transform"].func("compute_tth_eta_from_xyz")
     u = ast.unparse(tf)
-    R.check("s1 = peaks_xyz - compute_grain_origins(omega, wedge, chi, t_x, t_y, t_z)" in u, "C01.R4", TR, tf.lineno, "compute_tth_eta_from_xyz",
+    R.check("s1 = peaks_xyz - compute_grain_origins(omega, wedge, chi, t_x, t_y, t_z)" in u, r4n, TR, tf.lineno, "compute_tth_eta_from_xyz",
             "s1 = peaks_xyz - compute_grain_origins(omega, wedge, chi, t_x, t_y, t_z)", "the reference no longer subtracts the grain origin this way")
 
 
